@@ -12,7 +12,15 @@ import cmath
 
 import numpy as np
 import numpy.typing as npt
-from scipy.special import sph_harm
+try:
+    from scipy.special import sph_harm
+except ImportError:
+    # scipy removed sph_harm; sph_harm_y(n, m, polar, azimuth) is its replacement
+    from scipy.special import sph_harm_y
+
+    def sph_harm(m, n, theta, phi):
+        """scipy.special.sph_harm(m, n, azimuth, polar) in terms of sph_harm_y"""
+        return sph_harm_y(n, m, phi, theta)
 
 # pylint: disable=invalid-name
 # pylint: disable=line-too-long
